@@ -1863,7 +1863,9 @@ class PositiveDefiniteBlockDiagonalMatrix(
             return PositiveDefiniteBlockDiagonalMatrix(
                 tuple(scalar * block for block in self._blocks),
             )
-        return super()._scalar_multiply(scalar)
+        return SymmetricBlockDiagonalMatrix(
+            tuple(scalar * block for block in self._blocks),
+        )
 
     def _construct_transpose(self) -> Self:
         return self
